@@ -274,4 +274,121 @@ theorem percentDecodeLenient_percentEncode (m : Bytes) :
 theorem codeFromBytes_codeHeaderValue : ∀ c : Fin 17, codeFromBytes (codeHeaderValue c.val) = c.val := by
   decide
 
+/-! ### routing: the model's route predicate against the spec's path grammar -/
+
+theorem splitSlash_ne_nil (p : Bytes) : Spec.Interceptor.splitSlash p ≠ [] := by
+  induction p with
+  | nil => simp [Spec.Interceptor.splitSlash]
+  | cons c rest ih =>
+    rw [Spec.Interceptor.splitSlash]
+    cases h : Spec.Interceptor.splitSlash rest with
+    | nil => simp
+    | cons seg segs => by_cases hc : c = 47 <;> simp [hc]
+
+theorem splitSlash_slash (rest : Bytes) : Spec.Interceptor.splitSlash (47 :: rest) = [] :: Spec.Interceptor.splitSlash rest := by
+  rw [Spec.Interceptor.splitSlash]
+  cases h : Spec.Interceptor.splitSlash rest with
+  | nil => exact absurd h (splitSlash_ne_nil rest)
+  | cons seg segs => simp
+
+theorem splitSlash_other (c : UInt8) (rest : Bytes) (hc : c ≠ 47) (seg : Bytes) (segs : List Bytes)
+    (h : Spec.Interceptor.splitSlash rest = seg :: segs) : Spec.Interceptor.splitSlash (c :: rest) = (c :: seg) :: segs := by
+  rw [Spec.Interceptor.splitSlash, h]; simp [hc]
+
+/-- a segment without '/' followed by '/' is split off -/
+theorem splitSlash_seg (seg rest : Bytes) (h : ∀ c ∈ seg, c ≠ 47) :
+    Spec.Interceptor.splitSlash (seg ++ 47 :: rest) = seg :: Spec.Interceptor.splitSlash rest := by
+  induction seg with
+  | nil => exact splitSlash_slash rest
+  | cons c cs ih =>
+    have := ih (fun x hx => h x (List.mem_cons_of_mem _ hx))
+    exact splitSlash_other c _ (h c List.mem_cons_self) _ _ this
+
+theorem splitSlash_single (p : Bytes) (h : Spec.Interceptor.splitSlash p = [[]]) : p = [] := by
+  cases p with
+  | nil => rfl
+  | cons c rest =>
+    rw [Spec.Interceptor.splitSlash] at h
+    cases hr : Spec.Interceptor.splitSlash rest with
+    | nil => exact absurd hr (splitSlash_ne_nil rest)
+    | cons seg segs =>
+      rw [hr] at h
+      by_cases hc : c = 47 <;> simp [hc] at h
+
+/-- inverse: a split with at least two segments comes from `seg ++ '/' :: rest` -/
+theorem splitSlash_inv (p seg s2 : Bytes) (tl : List Bytes) (h : Spec.Interceptor.splitSlash p = seg :: s2 :: tl) :
+    ∃ rest, p = seg ++ 47 :: rest ∧ Spec.Interceptor.splitSlash rest = s2 :: tl := by
+  induction p generalizing seg with
+  | nil => simp [Spec.Interceptor.splitSlash] at h
+  | cons c rest ih =>
+    rw [Spec.Interceptor.splitSlash] at h
+    cases hr : Spec.Interceptor.splitSlash rest with
+    | nil => exact absurd hr (splitSlash_ne_nil rest)
+    | cons sg sgs =>
+      rw [hr] at h
+      by_cases hc : c = 47
+      · simp [hc] at h
+        obtain ⟨h1, h2, h3⟩ := h
+        subst h1 h2 h3
+        exact ⟨rest, by simp [hc], hr⟩
+      · simp [hc] at h
+        obtain ⟨h1, h2⟩ := h
+        subst h1
+        rw [h2] at hr
+        obtain ⟨r, hr1, hr2⟩ := ih sg hr
+        exact ⟨r, by simp [hr1], hr2⟩
+
+theorem routeMatches_iff (name path : Bytes) :
+    routeMatches name path = true ↔ ∃ rest, rest ≠ [] ∧ path = 47 :: (name ++ 47 :: rest) := by
+  simp only [routeMatches, Bool.and_eq_true, decide_eq_true_eq]
+  constructor
+  · rintro ⟨hp, hl⟩
+    obtain ⟨t, ht⟩ := List.isPrefixOf_iff_prefix.mp hp
+    refine ⟨t, ?_, ?_⟩
+    · intro e; subst e; rw [← ht] at hl; simp at hl
+    · rw [← ht]; simp
+  · rintro ⟨rest, hne, rfl⟩
+    constructor
+    · apply List.isPrefixOf_iff_prefix.mpr
+      exact ⟨rest, by simp⟩
+    · cases rest with
+      | nil => exact absurd rfl hne
+      | cons r rs => simp
+
+/-- The route predicate the model uses (axum's `/{NAME}/{*rest}`) is gRPC's notion of "the path
+names this service", for every service name without a slash and every path. -/
+theorem routeMatches_eq_spec (name path : Bytes) (hn : ∀ c ∈ name, c ≠ 47) :
+    routeMatches name path = Spec.Interceptor.pathNamesService name path := by
+  apply Bool.eq_iff_iff.mpr
+  rw [routeMatches_iff]
+  constructor
+  · rintro ⟨rest, hne, rfl⟩
+    have h1 : Spec.Interceptor.splitSlash (47 :: (name ++ 47 :: rest)) = [] :: name :: Spec.Interceptor.splitSlash rest := by
+      rw [splitSlash_slash, splitSlash_seg name rest hn]
+    cases hs : Spec.Interceptor.splitSlash rest with
+    | nil => exact absurd hs (splitSlash_ne_nil rest)
+    | cons m more =>
+      simp only [Spec.Interceptor.pathNamesService, h1, hs]
+      have : ¬ (m = [] ∧ more = []) := by
+        rintro ⟨rfl, rfl⟩
+        exact hne (splitSlash_single rest hs)
+      simp
+      exact Decidable.not_and_iff_or_not.mp this
+  · intro h
+    simp only [Spec.Interceptor.pathNamesService] at h
+    split at h
+    · rename_i first svc m more hsp
+      simp only [Bool.and_eq_true, List.isEmpty_iff, beq_iff_eq] at h
+      obtain ⟨⟨hf, hsvc⟩, hm⟩ := h
+      subst hf hsvc
+      obtain ⟨r1, hp1, hs1⟩ := splitSlash_inv path [] svc (m :: more) hsp
+      obtain ⟨r2, hp2, hs2⟩ := splitSlash_inv r1 svc m more hs1
+      refine ⟨r2, ?_, ?_⟩
+      · intro e; subst e
+        simp [Spec.Interceptor.splitSlash] at hs2
+        obtain ⟨rfl, rfl⟩ := hs2
+        simp at hm
+      · rw [hp1, hp2]; simp
+    · cases h
+
 end Interceptor
